@@ -160,11 +160,11 @@ func valCandidates(s *section, f *common.C15Field) []string {
 	}
 	switch f.Ty {
 	case "int", "ptrint":
-		return []string{"-2", "-1", "0", "1", "2", "5", "6", "7", "4095", "4096", "4097"}
+		return append([]string{"-2", "-1", "0", "1", "2", "5", "6", "7", "4095", "4096", "4097"}, constCands(s, "int")...)
 	case "uint":
 		return []string{"0", "1", "2", "7"}
 	case "dur":
-		return []string{`"-1s"`, `"-1ns"`, `"0s"`, `"1ns"`, `"5s"`, `"6s"`}
+		return append([]string{`"-1s"`, `"-1ns"`, `"0s"`, `"1ns"`, `"5s"`, `"6s"`}, constCands(s, "dur")...)
 	case "float", "ptrfloat":
 		return []string{"-0.5", "0", "0.0000001", "0.5", "0.999999", "1", "1.0000001", "1.5"}
 	case "bool":
@@ -195,7 +195,77 @@ func rowsOfTerm(s *section, term string) []*common.C15Field {
 	return l
 }
 
+// constCands: type-correct JSON values on both sides of every constant of the section's conjuncts
+// (hraft.ValidateConfig: 5ms / 1ms lower bounds, MaxAppendEntries 1..1024).
+func constCands(s *section, ty string) []string {
+	var l []string
+	seen := map[string]bool{}
+	for _, c := range s.schema.VConj {
+		for _, t := range append(append([]string{}, c.Guard...), c.Cond...) {
+			if !strings.HasPrefix(t, "c:") {
+				continue
+			}
+			k := common.C15ParseToken(t[2:])
+			for _, d := range []int64{-1, 0, 1} {
+				v := ""
+				if ty == "dur" && k.Kind == "dur" && k.I != 0 {
+					v = strconv.Quote(strconv.FormatInt(k.I+d, 10) + "ns")
+				}
+				if ty == "int" && k.Kind == "int" && k.I > 7 {
+					v = strconv.FormatInt(k.I+d, 10)
+				}
+				if v != "" && !seen[v] {
+					seen[v] = true
+					l = append(l, v)
+				}
+			}
+		}
+	}
+	return l
+}
+
+// zero-value objects (round 8c): LoadJSON / Validate of a never-initialised section object, also after a refused
+// unparsable load (those return before Default()), must return — never panic.
+//   C15 zero <section> first=<-|garbage|null|arr|trunc> op=<V|L|Ld> => res=<ok|err|panic>
+var zeroFirst = map[string]string{"-": "", "garbage": "%%%", "null": "null", "arr": "[]", "trunc": `{"x":`}
+
+func runZero(s *section, first, op string) {
+	if s.bad {
+		return
+	}
+	raw, ok := zeroFirst[first]
+	if !ok {
+		return
+	}
+	obj, ok := reflect.New(reflect.TypeOf(s.def.mk()).Elem()).Interface().(comp)
+	if !ok {
+		return
+	}
+	if first != "-" {
+		guard(func() error { return obj.LoadJSON([]byte(raw)) })
+	}
+	res := "-"
+	switch op {
+	case "V":
+		res = guard(obj.Validate)
+	case "L":
+		res = guard(func() error { return obj.LoadJSON([]byte("{}")) })
+	case "Ld":
+		res = guard(func() error { return obj.LoadJSON(s.baseB) })
+	default:
+		return
+	}
+	out.Line("C15 zero %s first=%s op=%s => res=%s", s.def.name, first, op, res)
+}
+
 func valBoundary(tier string) {
+	for _, s := range sections {
+		for _, first := range []string{"-", "garbage", "null", "arr", "trunc"} {
+			for _, op := range []string{"V", "L", "Ld"} {
+				runZero(s, first, op)
+			}
+		}
+	}
 	for _, s := range sections {
 		if s.bad {
 			continue
